@@ -36,7 +36,7 @@ def clone(node):
     for f in node._fields:
         if hasattr(node, f):
             setattr(new, f, clone(getattr(node, f)))
-    for a in ('lineno', 'col_offset', 'end_lineno', 'end_col_offset'):
+    for a in ('lineno', 'col_offset', 'end_lineno', 'end_col_offset', '_synthetic_keyerror'):
         if hasattr(node, a):
             setattr(new, a, getattr(node, a))
     return new
@@ -313,12 +313,29 @@ class _Flattener:
         self.keep = set(keep)
         self.k = 0
         self.expanded = []
+        # module-level functions that the rules do not know (not in pv/prims.py for this module): expandable from methods too
+        self.module_helpers = {}
+        if not module_level:
+            mod = scope
+            while mod is not None and not isinstance(mod, ast.Module):
+                mod = getattr(mod, '_parent', None)
+            rel = getattr(mod, '_rel', None) if mod is not None else None
+            if rel is not None:
+                from .prims import PRIMS
+                known = set(PRIMS.get(rel + '::', ()))
+                self.module_helpers = {x.name: x for x in mod.body if isinstance(x, ast.FunctionDef) and x.name not in known}
 
     def static(self, callee):
         return self.module_level or _is_static(callee)
 
     def callee_of(self, call, stack):
         f = call.func
+        if not self.module_level and isinstance(f, ast.Name) and f.id in self.module_helpers and f.id not in stack:
+            # a module-level helper function introduced after the rules were written, called from a method
+            callee = self.module_helpers[f.id]
+            if any(isinstance(a, ast.Starred) for a in call.args) or any(k.arg is None for k in call.keywords) or callee.decorator_list or not _expandable(callee):
+                return None
+            return callee
         if self.module_level:
             if not isinstance(f, ast.Name):
                 return None
@@ -355,7 +372,7 @@ class _Flattener:
         has_value_return = any(n.value is not None and not (isinstance(n.value, ast.Constant) and n.value.value is None) for n in rets)
         if target is not None and target != 'return' and has_value_return and _may_fall_off(body):
             return None
-        names, defaults = _params(callee, self.static(callee))
+        names, defaults = _params(callee, self.static(callee) or callee.name in self.module_helpers and callee is self.module_helpers.get(callee.name))
         vararg = callee.args.vararg.arg if callee.args.vararg else None
         if len(call.args) > len(names) and not vararg:
             return None
@@ -521,9 +538,63 @@ class _Flattener:
                 out.append(s)
         return out
 
+    def _hoist_nested(self, stmts, stack):
+        """x = f(a, self.m(b))   ->   m__value = self.m(b);  x = f(a, m__value)
+        for an expandable call nested in a simple statement, when nothing but plain loads and the calls enclosing it are evaluated in
+        that statement (so the order of effects is unchanged).  Repeated until no such call is left."""
+        out = []
+        for s in stmts:
+            cur = [s]
+            while True:
+                st = cur[-1]
+                if not isinstance(st, (ast.Assign, ast.Return, ast.Expr)) or getattr(st, 'value', None) is None:
+                    break
+                top = st.value
+                cands = []
+                parents = {}
+                for n in ast.walk(top):
+                    for c in ast.iter_child_nodes(n):
+                        parents[id(c)] = n
+                blocked = any(isinstance(n, (ast.Lambda, ast.ListComp, ast.SetComp, ast.DictComp, ast.GeneratorExp, ast.IfExp, ast.BoolOp, ast.NamedExpr, ast.Await, ast.Yield)) for n in ast.walk(top))
+                if blocked:
+                    break
+                calls = [n for n in ast.walk(top) if isinstance(n, ast.Call)]
+                for c in calls:
+                    if c is top or self.callee_of(c, stack) is None:
+                        continue
+                    anc = set()
+                    p = parents.get(id(c))
+                    while p is not None:
+                        anc.add(id(p))
+                        p = parents.get(id(p))
+                    inner = {id(x) for x in ast.walk(c)}
+                    # calls evaluated before c (Python evaluates left to right): moving c in front of them would reorder effects
+                    others = [o for o in calls if o is not c and id(o) not in anc and id(o) not in inner
+                              and (o.lineno, o.col_offset) < (c.lineno, c.col_offset)]
+                    if not others:
+                        cands.append(c)
+                cands.sort(key=lambda n: (n.lineno, n.col_offset))
+                if not cands:
+                    break
+                c = cands[0]
+                self.k += 1
+                tmp = '%s__value%d' % (self.callee_of(c, stack).name.strip('_'), self.k)
+                pre = ast.copy_location(ast.Assign(targets=[ast.Name(id=tmp, ctx=ast.Store())], value=c), st)
+
+                class R(ast.NodeTransformer):
+                    def visit_Call(self_, node):
+                        if node is c:
+                            return ast.copy_location(ast.Name(id=tmp, ctx=ast.Load()), node)
+                        return self_.generic_visit(node)
+                st.value = R().visit(st.value)
+                cur = cur[:-1] + [pre, st]
+            out.extend(cur)
+        return out
+
     def block(self, stmts, caller_names, stack, depth):
         out = []
         stmts = self._hoist_subscript(stmts, stack)
+        stmts = self._hoist_nested(stmts, stack)
         if any(isinstance(s, ast.Assign) and isinstance(s.value, ast.Call) and self.callee_of(s.value, stack) is not None for s in stmts):
             stmts = self._merge_unpack(stmts)
         for s in stmts:
